@@ -2,7 +2,7 @@
 From Coq Require Import List NArith Bool.
 From Frugal Require Import Bytes Wire Skip Values Desc Spec Encode Decode Checks Tags State Bitset Alloc DescMap Conc LegacyDefs.
 From Frugal.gen Require Import Params.
-From Frugal.proofs Require Import GenOk BytesWire EncodeSpec SizeExact SkipPut DecodeSafe DecodeRefines RoundTrip Corollaries StateProofs BitsetProofs AllocProofs DescMapProofs ConcProofs BufferContract.
+From Frugal.proofs Require Import GenParams GenTables SizeExact BufferContract.
 From Frugal.props Require Import Examples.
 Import ListNotations.
 
@@ -28,3 +28,8 @@ Print Assumptions C04_buffer_contract.
 Example C04_instance : encoded_size env_ex 0 v_ex = len (append_struct env_ex 0 v_ex)
   /\ (exists arr', encode_object env_ex 0 (repeat 165 10) 10 v_ex = EncErr arr').
 Proof. split; [vm_compute; reflexivity | eexists; vm_compute; reflexivity]. Qed.
+
+(* the side conditions on the generated constants and tables that the theorems above assume hold
+   for what the translator read from the sources of this run *)
+Theorem C04_side_conditions : params_ok = true /\ tables_ok = true.
+Proof. split; [exact params_ok_holds | exact tables_ok_holds]. Qed.
